@@ -2091,8 +2091,12 @@ start_type (GMarkupParseContext *context,
 
       if (name == NULL)
 	{
-	  MISSING_ATTRIBUTE (context, error, element_name, "name");
-	  return FALSE;
+	  /* The scanner writes the target of an alias whose type it could
+	   * not resolve as <type c:type="..."/> without a name (the alias
+	   * itself is marked introspectable="0"). There is nothing such an
+	   * alias could resolve to, so it is not recorded; this must not
+	   * make the whole file unreadable. */
+	  return TRUE;
 	}
 
       key = g_strdup_printf ("%s.%s", ctx->namespace, ctx->current_alias);
